@@ -72,3 +72,83 @@ Proof.
     + apply IH; auto.
     + inversion H; subst; cbn. eexists; reflexivity.
 Qed.
+
+(** ** the capacity invariant along every run (C03 at the level of contents and lengths) *)
+Lemma ceval_tree_inv cfg : forall t s x l x', vals_ok (c_decls cfg) (vals x) = true ->
+  ceval_tree cfg t s x = Some (l, x') -> vals_ok (c_decls cfg) (vals x') = true.
+Proof.
+  induction t as [l0|p k IH|c a IHa b IHb|]; cbn [ceval_tree]; intros s x l x' Hok H; try discriminate.
+  - inversion H; subst; auto.
+  - destruct (nth_error (c_prims cfg) (N.to_nat p)) as [cp|]; try discriminate.
+    destruct (exec_cprim cfg cp s x) as [x1|] eqn:Ex; try discriminate.
+    eapply IH; [|exact H]. eapply store_inv_prim; eauto.
+  - destruct (nth_error (c_tests cfg) (N.to_nat c)) as [ct|]; try discriminate.
+    destruct (eval_ctest cfg ct s x) as [bv|]; try discriminate.
+    destruct bv; [eapply IHa | eapply IHb]; eauto.
+Qed.
+
+Lemma cfeed_go_inv cfg d : forall bs q x n r, vals_ok (c_decls cfg) (vals x) = true ->
+  cfeed_go cfg d bs q x n = Some r -> vals_ok (c_decls cfg) (vals (r_x r)) = true.
+Proof.
+  induction bs as [|b bs IH]; intros q x n r Hok H; cbn [cfeed_go] in H.
+  - inversion H; subst; auto.
+  - destruct (ceval_tree cfg (step_tree d q b) b x) as [[l x']|] eqn:E; try discriminate.
+    pose proof (ceval_tree_inv cfg _ _ _ _ _ Hok E) as Hok'.
+    destruct l as [q'|rc q' adv]; [eapply IH; eauto | inversion H; subst; auto].
+Qed.
+
+Lemma apply_defaults_inv cfg : forall ps x x', vals_ok (c_decls cfg) (vals x) = true ->
+  apply_defaults cfg ps x = Some x' -> vals_ok (c_decls cfg) (vals x') = true.
+Proof.
+  induction ps as [|p ps IH]; intros x x' Hok H; cbn [apply_defaults] in H.
+  - inversion H; subst; auto.
+  - destruct (exec_cprim cfg p 0%N x) as [x1|] eqn:E; try discriminate.
+    eapply IH; [|exact H]. eapply store_inv_prim; eauto.
+Qed.
+
+Lemma run_start_inv cfg : forall a q x r q' x', vals_ok (c_decls cfg) (vals x) = true ->
+  run_start cfg a q x = Some (r, q', x') -> vals_ok (c_decls cfg) (vals x') = true.
+Proof.
+  induction a as [|p k IH|c a1 IH1 a2 IH2|r0|q2|q2]; cbn [run_start]; intros q x r q' x' Hok H;
+    try (inversion H; subst; auto; fail).
+  - destruct (nth_error (c_prims cfg) (N.to_nat p)) as [cp|]; try discriminate.
+    destruct (exec_cprim cfg cp 0%N x) as [x1|] eqn:Ex; try discriminate.
+    eapply IH; [|exact H]. eapply store_inv_prim; eauto.
+  - destruct (nth_error (c_tests cfg) (N.to_nat c)) as [ct|]; try discriminate.
+    destruct (eval_ctest cfg ct 0%N x) as [bv|]; try discriminate.
+    destruct bv; [eapply IH1 | eapply IH2]; eauto.
+Qed.
+
+(** a history of calls: start, then any sequence of feed / end calls *)
+Inductive call := CFeed (bs : list N) | CEnd.
+
+Fixpoint run_calls (cfg : ccfg) (d : dfa) (cs : list call) (q : nat) (x : cdata) : option (nat * cdata) :=
+  match cs with
+  | [] => Some (q, x)
+  | CFeed bs :: r => match cfeed cfg d bs q x with Some ret => run_calls cfg d r (r_q ret) (r_x ret) | None => None end
+  | CEnd :: r => match cend cfg d q x with Some ret => run_calls cfg d r (r_q ret) (r_x ret) | None => None end
+  end.
+
+Theorem capacity_invariant cfg d : forall x0 r q x cs q' x',
+  vals_ok (c_decls cfg) (vals x0) = true ->
+  cstart cfg d x0 = Some (r, q, x) ->
+  run_calls cfg d cs q x = Some (q', x') ->
+  vals_ok (c_decls cfg) (vals x) = true /\ vals_ok (c_decls cfg) (vals x') = true.
+Proof.
+  intros x0 r q x cs q' x' H0 Hs Hr.
+  assert (Hx : vals_ok (c_decls cfg) (vals x) = true).
+  { unfold cstart in Hs. destruct (apply_defaults cfg (c_defaults cfg) x0) as [x1|] eqn:E; try discriminate.
+    eapply run_start_inv; [|exact Hs]. eapply apply_defaults_inv; eauto. }
+  split; auto. clear Hs H0. revert q x Hx Hr.
+  induction cs as [|c cs IH]; intros q x Hx Hr; cbn [run_calls] in Hr.
+  - inversion Hr; subst; auto.
+  - destruct c as [bs|].
+    + destruct (cfeed cfg d bs q x) as [ret|] eqn:E; try discriminate.
+      eapply IH; [|exact Hr]. unfold cfeed in E. destruct bs as [|b bs'].
+      * destruct (d_end_check d); inversion E; subst; auto.
+      * eapply cfeed_go_inv; eauto.
+    + destruct (cend cfg d q x) as [ret|] eqn:E; try discriminate.
+      eapply IH; [|exact Hr]. unfold cend in E.
+      destruct (ceval_tree cfg (step_tree d q sym_end) 255%N x) as [[l x1]|] eqn:E2; try discriminate.
+      destruct l; try discriminate. inversion E; subst; cbn. eapply ceval_tree_inv; eauto.
+Qed.
